@@ -563,7 +563,8 @@ for _patch, _props in (('refactors/R3/patch.diff', ('C04', 'C05', 'C06', 'C07', 
                        ('refactors/R5/patch.diff', ('C12', 'C13', 'C14')),
                        ('refactors/R7/patch.diff', ('C01', 'C08', 'C09', 'C17', 'C19')),
                        ('refactors/R8/patch.diff', ('C18',)),      # harmless twin of seed C18b (perturbation helper without the clamp)
-                       ('refactors/R9/patch.diff', ('C15',))):     # harmless twin of seed C15b (columns by list indexing, not by mask)
+                       ('refactors/R9/patch.diff', ('C15',)),
+                       ('refactors/R10/patch.diff', ('C15', 'C16'))):    # harmless twin of seed C16c (prior spec looked up once per parameter)     # harmless twin of seed C15b (columns by list indexing, not by mask)
     for _p in _props:
         MUTANTS.append({'prop': _p, 'name': 'refactor-' + _patch.split('/')[1], 'kind': 'silent', 'patch': _patch})
 M('C06', 'revert-sentinel-slot', S, "empty_array = -np.ones((self.num_reactions, self.num_species + 1, 2), dtype = np.int32)", "empty_array = -np.ones((self.num_reactions, self.num_species, 2), dtype = np.int32)", 'fire', 'R6.4-safe-sentinel/SafeModelCSimInterface')
@@ -599,3 +600,14 @@ for _d in sorted(_os.listdir(_SEEDED)) if _os.path.isdir(_SEEDED) else []:
 MUTANTS.append({'prop': 'C05', 'name': 'zero-test-nonpositive', 'kind': 'silent', 'file': S, 'occurrences': 2,
                 'old': "            if Lambda == 0:\n                proposed_time = c_timepoints[current_index]\n                reaction_fired = 0\n",
                 'new': "            if Lambda <= 0:\n                proposed_time = c_timepoints[current_index]\n                reaction_fired = 0\n"})
+
+for _p, _exp in (('C14', 'R14.6-formula-language/kinetic-law/log'), ('C12', 'R12.5-formula-language/kinetic-law/log')):
+    M(_p, 'kinetic-law-default-l3-parser', SB, "    math_ast = libsbml.parseL3FormulaWithSettings(ratestring, _L3_PARSER_SETTINGS)\n",
+      "    math_ast = libsbml.parseL3Formula(ratestring)\n", 'fire', _exp)
+M('C12', 'rule-legacy-parser', SB, "    math_ast = libsbml.parseL3FormulaWithSettings(rule_formula, _L3_PARSER_SETTINGS)\n    flag = rule.setMath(math_ast)\n",
+  "    math_ast = libsbml.parseFormula(rule_formula)\n    flag = rule.setMath(math_ast)\n", 'fire', 'R12.5-formula-language/rule/operators')
+M('C12', 'rule-power-spelling-dropped', SB, "    rule_formula = str(rule_formula).replace('**','^')\n", "    rule_formula = str(rule_formula)\n", 'fire', 'R12.5-formula-language/rule/power-spelling')
+M('C12', 'settings-local-variable', SB, "    math_ast = libsbml.parseL3FormulaWithSettings(ratestring, _L3_PARSER_SETTINGS)\n",
+  "    l3 = libsbml.L3ParserSettings()\n    l3.setParseLog(libsbml.L3P_PARSE_LOG_AS_LN)\n    math_ast = libsbml.parseL3FormulaWithSettings(ratestring, l3)\n", 'silent')
+M('C14', 'settings-local-variable', SB, "    math_ast = libsbml.parseL3FormulaWithSettings(ratestring, _L3_PARSER_SETTINGS)\n",
+  "    l3 = libsbml.L3ParserSettings()\n    l3.setParseLog(libsbml.L3P_PARSE_LOG_AS_LN)\n    math_ast = libsbml.parseL3FormulaWithSettings(ratestring, l3)\n", 'silent')
